@@ -13,8 +13,16 @@ where
         n => n,
     };
 
-    buf.resize(block_size, 0);
-    reader.read_exact(buf).await?;
+    // The block size is not trusted to preallocate the buffer: it grows as the data is read.
+    buf.clear();
+    let len = reader.take(block_size as u64).read_to_end(buf).await?;
+
+    if len < block_size {
+        return Err(io::Error::new(
+            io::ErrorKind::UnexpectedEof,
+            "failed to fill whole buffer",
+        ));
+    }
 
     validate(buf)?;
 
@@ -59,6 +67,22 @@ where
 #[cfg(test)]
 mod tests {
     use super::*;
+
+    #[tokio::test]
+    async fn test_read_record_with_an_unsatisfiable_block_size() {
+        let data = [
+            0xff, 0xff, 0xff, 0xff, // block_size = 4294967295
+            0xff, 0xff, 0xff, 0xff, // ref_id = -1
+        ];
+
+        let mut reader = &data[..];
+        let mut buf = Vec::new();
+
+        assert!(matches!(
+            read_record(&mut reader, &mut buf).await,
+            Err(e) if e.kind() == io::ErrorKind::UnexpectedEof
+        ));
+    }
 
     #[tokio::test]
     async fn test_read_block_size() -> io::Result<()> {
